@@ -367,10 +367,19 @@ func propC10(w *World, r *Report) {
 		reach := reachableNames(cl, 4)
 		r.Check(reach["Compress"] && reach["CloseCompressed"] && reach["DeleteTemp"], "D2", "FileWriter.Close compresses, closes the output and deletes the scratch file", w.InstrPos(closeCall), fmt.Sprint(keysOf(reach)))
 	}
-	// no other operation in the recorder package produces a .cptv name
+	// no other operation in the recorder package produces a .cptv name (dead code is ignored: only functions
+	// reachable from the daemon's goroutine roots count)
+	live := map[*ssa.Function]bool{}
+	if la, err := newLockAnalysis(w, pkgRel); err == nil {
+		for _, fs := range la.Funcs {
+			for f := range fs {
+				live[f] = true
+			}
+		}
+	}
 	n := 0
 	for _, fn := range w.RepoFuncs() {
-		if fn.Pkg != pkg {
+		if fn.Pkg != pkg || (len(live) > 0 && !live[fn]) {
 			continue
 		}
 		for _, b := range fn.Blocks {
